@@ -496,8 +496,38 @@ def handleMS (hF pF sitesF : String) : String :=
         " g=" ++ groupsField rs ++ "|" ++ groupsField errs
   | _, _, _ => "bad-op"
 
+/-! op `ic`: the real `intercept` handler in front of `static_response <ST>`
+
+    ic <ST> <request> <handlers>     handlers = H (C code^C K (SC | routes))^H    K 0 = replace the status by SC, 1 = routes
+  answer as for a tree case: `t=… s=…`                                                            -/
+
+partial def pRespHandler : P RespHandler := fun toks => do
+  let (c, toks) ← pNat toks
+  let (codes, toks) ← pMany pNat c toks
+  let (k, toks) ← pNat toks
+  match k with
+  | 0 => do
+    let (sc, toks) ← pNat toks
+    pure (⟨codes, some sc, []⟩, toks)
+  | 1 => do
+    let (rs, toks) ← pRoutes toks
+    pure (⟨codes, none, rs⟩, toks)
+  | _ => none
+
+def handleIC (stF reqF hsF : String) : String :=
+  match natTok stF, parseReq reqF,
+      (match (do let (n, toks) ← pNat (hsF.splitOn ","); pMany pRespHandler n toks) with
+        | some (hs, []) => some hs | _ => none) with
+  | some st, some r, some hs =>
+    if !(200 ≤ st && st ≤ 599) || hs.length > 3 ||
+        !hs.all (fun h => h.codes.length ≤ 3 && h.codes.all (fun c => (1 ≤ c && c ≤ 5) || (200 ≤ c && c ≤ 599)) &&
+          (match h.replace with | some sc => 200 ≤ sc && sc ≤ 599 | none => true) && rsValid h.routes) then "bad-op"
+    else showResult (serveIntercepted hs st r)
+  | _, _, _ => "bad-op"
+
 def handle : List String → String
   | ["he", s, p, blocks] => handleHE s p blocks
+  | ["ic", st, req, hs] => handleIC st req hs
   | ["ms", h, p, sites] => handleMS h p sites
   | ["cf", p, nodes, ebs] => handleCF p nodes ebs
   | ["hd", p, nodes] => handleHD p nodes
